@@ -11,6 +11,8 @@ import (
 	"os"
 	"runtime/debug"
 	"sort"
+	"strconv"
+	"strings"
 	"sync"
 	"testing"
 
@@ -186,6 +188,11 @@ func Run[C any](t *testing.T, id string, gen func(*rapid.T) *C, check func(*C, *
 	shrinking := false
 	rapid.Check(t, func(rt *rapid.T) {
 		c := gen(rt)
+		if lp := os.Getenv("VERIF_LASTCASE"); lp != "" {
+			if b, e := json.Marshal(map[string]any{"property": id, "case": c}); e == nil {
+				os.WriteFile(lp, b, 0o644)
+			}
+		}
 		o := &Obs{}
 		err := safeCheck(check, c, o)
 		var k *KnownErr
@@ -225,6 +232,27 @@ func recordFail(id string, c any, msg string) {
 	if p := os.Getenv("VERIF_FAILCASE"); p != "" {
 		os.WriteFile(p, b, 0o644)
 	}
+}
+
+// FuzzCorpusBytes reads a Go native-fuzzing corpus/crasher file with a single []byte argument.
+func FuzzCorpusBytes(path string) ([]byte, bool) {
+	b, err := os.ReadFile(path)
+	if err != nil || !strings.HasPrefix(string(b), "go test fuzz v1") {
+		return nil, false
+	}
+	lines := strings.Split(strings.TrimSpace(string(b)), "\n")
+	if len(lines) < 2 {
+		return nil, false
+	}
+	l := strings.TrimSpace(lines[1])
+	if !strings.HasPrefix(l, "[]byte(") || !strings.HasSuffix(l, ")") {
+		return nil, false
+	}
+	q, err := strconv.Unquote(l[len("[]byte(") : len(l)-1])
+	if err != nil {
+		return nil, false
+	}
+	return []byte(q), true
 }
 
 // RecordFail lets non-rapid checks (enumerations) register a failing case.
